@@ -157,6 +157,7 @@ macro_rules! dispatch_type {
             "SynS" => $ref_m!($crate::synth::SynS, $req),
             "SynQ" => $ref_m!($crate::synth::SynQ, $req),
             "SynI" => $ref_m!($crate::synth::SynI, $req),
+            "SynT" => $ref_m!($crate::synth::SynT, $req),
             "SynTwo" => $noref_m!($crate::synth::SynTwo, $req),
             "SynFive" => $noref_m!($crate::synth::SynFive, $req),
             "SynOne" => $single_m!($crate::synth::SynOne, $req),
@@ -196,6 +197,7 @@ pub fn type_list() -> Vec<(&'static str, &'static str)> {
         ("SynS", "ref"),
         ("SynQ", "ref"),
         ("SynI", "ref"),
+        ("SynT", "ref"),
         ("SynTwo", "noref"),
         ("SynFive", "noref"),
         ("SynOne", "single"),
